@@ -4,10 +4,10 @@ import cxx_specs as XS
 
 PROPERTY = "C10"
 LEVEL = "proof"
-EXPLANATION = ("Proof on the real argon2_core.c / argon2_ref.c / argon2_ssse3.c / argon2_avx2.c: index_alpha equals the RFC 9106 3.4 mapping for every position and J1; each of the three fill_segment implementations, for every instance size, pass, slice and version, calls fill_block exactly once per index of the segment in order, on the cyclic predecessor, on the block index_alpha selects from the predecessor's first word and on the block under construction, XORing over the old block exactly in passes > 0 of version 0x13, and leaves every block outside the segment untouched (unbounded: loop contract, symbolic-size memory); fBlaMka is a + b + 2 lo(a) lo(b). The compression function fill_block == G for the three implementations is attempted in the thorough tier only (see NOT_DECIDED). The SIMD files are compiled against C models of 22 intrinsics (trusted, differentially tested against the CPU on every run).")
+EXPLANATION = ("Proof on the real argon2_core.c / argon2_ref.c / argon2_ssse3.c / argon2_avx2.c: index_alpha equals the RFC 9106 3.4 mapping for every position and J1; each of the three fill_segment implementations, for every instance size, pass, slice and version, calls fill_block exactly once per index of the segment in order, on the cyclic predecessor, on the block index_alpha selects from the predecessor's first word and on the block under construction, XORing over the old block exactly in passes > 0 of version 0x13, and leaves every block outside the segment untouched (unbounded: loop contract, symbolic-size memory); fBlaMka is a + b + 2 lo(a) lo(b). The compression function fill_block == G for the three implementations is only sampled natively (bounded stand-in; the deductive obligations are kept under --tier attempt, see NOT_DECIDED). The SIMD files are compiled against C models of 22 intrinsics (trusted, differentially tested against the CPU on every run).")
 TRUSTED = ['stubs/intrin/rxv_intrin_model.h: C models of the 22 SSE2/SSSE3/AVX2 intrinsics used (Intel Intrinsics Guide pseudo-code); a native differential test against the CPU runs as obligation intrinsic_models_match_cpu (supporting, not proof)', '32x32->64 multiplication is an uninterpreted function in the fill_block obligations (tied to the code by fBlaMka_body)', 'SIMD harness memcpy stub: destination havocked, exact on the ghost probe word']
 ASSUMPTIONS = ['one lane (RandomX: Table 7.1.1 p = 1), 2 <= segment_length <= 2^20, lane_length = 4 * segment_length, version in {0x10, 0x13}']
-NOT_DECIDED = ['fill_block == G (RFC 9106 3.5) for ref / SSSE3 / AVX2: obligations exist in the thorough tier (loop-invariant cuts per permutation loop) but did not finish within 30 GB / 900 s on any back end; unproven', 'initial hash H0, first two blocks of each lane (blake2b_long), finalisation omitted, re-initialisation leaving no trace (follows from pass-0 overwrite, decided for fill_segment only)', 'selectArgonImpl flag dispatch']
+NOT_DECIDED = ['fill_block == G (RFC 9106 3.5) for ref / SSSE3 / AVX2: obligations exist (--tier attempt; loop-invariant cuts per permutation loop, uninterpreted 32x32 product) but did not finish within 30 GB / 900 s on any back end; the sampled native comparison stands in, labelled bounded', 'initial hash H0, first two blocks of each lane (blake2b_long), finalisation omitted, re-initialisation leaving no trace (follows from pass-0 overwrite, decided for fill_segment only)', 'selectArgonImpl flag dispatch']
 
 
 def woven(src, fn, nloops, k="0", fb_loops=2, fb_row="0"):
@@ -25,7 +25,6 @@ CASES = ["v10", "v13_pass0", "v13_later_passes"]
 
 # fill_block == G with loop-invariant cuts (contracts in contracts_argon2_ref.h / contracts_argon2_simd.h): kept out of the tiers
 # because no back end finished (30 GB / 900 s); run with --only 'ATTEMPT_' --tier attempt
-FILL_BLOCK_ATTEMPTS = {}
 
 
 def simd(impl, vec):
@@ -33,7 +32,11 @@ def simd(impl, vec):
     files = [woven("argon2_%s.c" % impl, fn, 1, fb_loops=5, fb_row="2"), "harness_argon2_simd.c"]
     defs = ["RXV_VEC=" + vec, "RXV_SEG_FN=" + fn, 'RXV_WOVEN="argon2_%s_woven.c"' % impl, "__SSSE3__=1", "__AVX2__=1", "__GNUC__=12"]
     inc = ["@stubs/intrin"]
-    return FILL_BLOCK_ATTEMPTS.get(impl, []) + [
+    attempt = [{"name": "ATTEMPT_fill_block_%s_equals_G_rfc9106_3_5" % impl, "tier": "attempt", "files": files, "incdirs": inc, "defines": defs + ["RXV_UF_MUL=1"],
+                "entry": "h_fill_block", "enforce": "fill_block", "replace": [], "unwind": 130, "checks": CHECKS, "loop_contracts": True, "unwind_false_loops": True,
+                "cbmc_flags": ["--object-bits", "12"], "mem_gb": 40, "weight": 8,
+                "expect_classes": ["postcondition", "loop_invariant_base", "loop_invariant_step"], "expect_min": 5, "timeout": 7200}]
+    return attempt + [
         {"name": "fill_segment_%s_schedule_and_frame_%s" % (impl, CASES[c]), "files": files, "incdirs": inc, "defines": defs + ["RXV_CASE=%d" % c],
          "tier": "thorough" if c == 0 else "quick",
          "entry": "h_fill_segment", "enforce": fn,
@@ -57,6 +60,10 @@ OBLIGATIONS = [
     {"name": "fill_block_three_implementations_equal_G_sampled", "kind": "native", "bounded": "20000 pseudo-random / structured block triples per implementation (200000 in the thorough tier)",
      "native": {"prog": "native_fill_block.c", "sources": ["src/argon2_core.c", "src/blake2/blake2b.c", "@suites/C10/native_wrap_ref.c", "@suites/C10/native_wrap_ssse3.c", "@suites/C10/native_wrap_avx2.c"],
                 "flags": ["-O2", "-mssse3", "-mavx2"], "args": ["20000"]}},
+    {"name": "ATTEMPT_fill_block_ref_equals_G_rfc9106_3_5", "tier": "attempt", "files": REF,
+     "entry": "h_fill_block", "enforce": "fill_block", "replace": ["fBlaMka"], "defines": ["RXV_UF_MUL=1"], "unwind": 130, "checks": CHECKS, "loop_contracts": True,
+     "unwind_false_loops": True, "cbmc_flags": ["--object-bits", "12"], "mem_gb": 40, "weight": 8,
+     "expect_classes": ["postcondition", "loop_invariant_base", "loop_invariant_step"], "expect_min": 5, "timeout": 7200},
 ] + [
     {"name": "fill_segment_ref_schedule_and_frame_" + CASES[c], "files": REF, "tier": "thorough" if c == 0 else "quick",
      "entry": "h_fill_segment", "enforce": "randomx_argon2_fill_segment_ref", "defines": ["RXV_CASE=%d" % c],
